@@ -95,7 +95,8 @@ Section SortStage.
     { intro Hc. pose proof (find_port_at a i (w_paths a WF) Hi) as F1.
       pose proof (find_port_at a j (w_paths a WF) Hj) as F2. rewrite Hc in F1.
       assert (i = j) by congruence. subst j. exact (not_self a WF i Hi Hm). }
-    eapply scan_complete; try eassumption.
+    apply flagged_in_lookups in Hic.
+    eapply (scan_complete apropos _ _ _ fuel ds {| lk_path := lookup_path ic; lk_base := snd ic; lk_parent := fst ic |} m e); try eassumption.
     rewrite has_key_map_keys. apply existsb_exists.
     exists (l_path (nth y ls dummy_line)). split.
     - assert (Hiny : In (nth y ms ([], dummy_line)) ms) by (apply nth_In; rewrite Hlen; apply Hlt; assumption).
